@@ -132,25 +132,23 @@ theorem judgeReadsOrd_none {cfg : Cfg} {ops : List (Nat × OpK)} {evs : List Obs
     judgeReadsOrd cfg ops evs = none := by
   unfold judgeReadsOrd
   simp only
-  split
-  · rfl
-  · rw [List.findSome?_eq_none_iff]
-    rintro ⟨i, op⟩ hm
-    cases op with
-    | get k =>
-      cases hs : firstIdx evs i with
+  rw [List.findSome?_eq_none_iff]
+  rintro ⟨i, op⟩ hm
+  cases op with
+  | get k =>
+    cases hs : firstIdx evs i with
+    | none => simp only
+    | some rs =>
+      cases he : endIdx evs i with
       | none => simp only
-      | some rs =>
-        cases he : endIdx evs i with
-        | none => simp only
-        | some re =>
-          simp only
-          obtain ⟨v, hres, hg⟩ := h i k rs re hm hs he
-          have hok := readOkOrd_of_readGoodO hg
-          have hres' : (evs.getD re ⟨0, [], [], [], none⟩).res = some (resOf v) := hres
-          cases v with
-          | none => simp only [hres', resOf, hok, if_true]
-          | some x => simp only [hres', resOf, hok, if_true]
-    | _ => simp
+      | some re =>
+        simp only
+        obtain ⟨v, hres, hg⟩ := h i k rs re hm hs he
+        have hok := readOkOrd_of_readGoodO hg
+        have hres' : (evs.getD re ⟨0, [], [], [], none⟩).res = some (resOf v) := hres
+        cases v with
+        | none => simp only [hres', resOf, hok, if_true]
+        | some x => simp only [hres', resOf, hok, if_true]
+  | _ => simp
 
 end HappyModel.C16
